@@ -497,13 +497,18 @@ THOROUGH_COMPANIONS = {
     "C02": [("total_diff.py", [[]])],
     "C03": [("event_diff.py", [[]])],
     "C04": [("floor_diff.py", [["1"]]), ("total_diff.py", [[]])],
+    "C05": [("value_diff.py", [["1"], ["2"], ["3"]])],
     "C06": [("parse_diff.py", [["1"], ["2"], ["3"]])],
     "C07": [("nested_diff.py", [["1"]])],
+    "C08": [("inject_diff.py", [["1"]])],
     "C09": [("shape_diff.py", [[]])],
     "C11": [("allow_diff.py", [["1"], ["2"], ["3"], ["4"]])],
     "C13": [("determinism_diff.py", [["--two-process"]])],
     "C14": [("edits_diff.py", [["1", "400"], ["2", "400"], ["3", "400"]])],
     "C15": [("const_diff.py", [["1"], ["2"], ["3"]])],
+    "C16": [("pt_diff.py", [["1"], ["2"]])],
+    "C17": [("poly_diff.py", [["1"]])],
+    "C18": [("cli_diff.py", [["1"], ["2"]])],
     "C19": [("total_diff.py", [[]])],
 }
 
@@ -542,7 +547,7 @@ def thorough_extras(run):
             for f in d.get("failures", []) or []:
                 f = dict(f)
                 f["name"] = failure_name(stem, f)
-                k = next((k for k in known if re.search(k["obligation"], f["name"]) or (k.get("companion") and re.search(k["companion"], f["name"]))), None)
+                k = next((k for k in known if re.search(k["obligation"], f["name"]) or (k.get("companion") and re.search(k["companion"], f["name"] + " " + str(f.get("source", ""))))), None)
                 if k is not None:
                     if k["what"] not in hits:
                         hits.append(k["what"])
